@@ -25,9 +25,14 @@ Open Scope list_scope.
 
 (* ---------- Python equality on loaded nodes ---------- *)
 
-(* isinstance(n, TaggedScalar): a scalar carrying a YAML tag *)
+(* isinstance(n, TaggedScalar): a scalar carrying a YAML tag.  An anchored
+   YAML boolean (ruamel ScalarBoolean) is encoded as an int leaf with the YAML
+   bool tag (Lib/Doc.v is_sbool); it is no TaggedScalar. *)
 Definition is_tagged_scalar (n : node) : bool :=
-  match n with NLeaf i _ => match tag i with Some _ => true | None => false end | _ => false end.
+  match n with
+  | NLeaf i _ => match tag i with Some _ => negb (is_sbool n) | None => false end
+  | _ => false
+  end.
 
 Definition key_val (k : node) : pyval := match k with NLeaf _ v => v | _ => PNone end.
 
